@@ -171,7 +171,10 @@ func (m *Manager) findBestEndpointLocked(ctx context.Context) (*activeEnpoint, e
 	// Fallback to first endpoint with short
 	m.debugf("Falling back to first endpoint %s", firstEndpoint)
 	ae := m.newActiveEndpointLocked(firstEndpoint)
+	// ae may be the active endpoint, whose fields are read under its own lock.
+	ae.mu.Lock()
 	ae.testInterval = minTestIntervalFailed
+	ae.mu.Unlock()
 	return ae, nil
 }
 
